@@ -8,9 +8,12 @@ and jumps: one height per label, every jump and fall-through arrives at its labe
 
 Full statements (`C20_*_Statement`) quantify over every node kind.  What is proved so far is named
 `_partial` and carries the decidable scope predicate `covE/covA/covS` (Lemmas/C20Induction.lean):
-all expression kinds whose code is straight-line, for every operand type, arbitrary nesting.
-Open: FUNCALL, COND, LOGAND, LOGOR, STMT_EXPR, CAS and the control-flow statements (validated by
-`Effect.checkBody` on every function of the corpus on every run, not yet proved).
+all expression kinds whose code is straight-line — function calls with every argument list
+included (register, stack, struct in one or two registers of either class, struct in memory,
+long double, return buffer, both parities of `depth`) — for every operand type, arbitrary nesting.
+Open: COND, LOGAND, LOGOR, STMT_EXPR, CAS, the builtin alloca and the control-flow statements
+(validated by `Effect.checkBody` on every function of the corpus on every run, not yet proved);
+calls with an empty struct argument are the known finding C20-empty-struct-arg.
 
 Property theorems only; helper lemmas are in Lemmas/C20Lemmas.lean and Lemmas/C20Induction.lean.
 -/
@@ -115,6 +118,31 @@ theorem C20_one_value_partial (env : Env) (i : NInfo) (lhs rhs : Node)
     delta ls = some ⟨0, 1⟩ := by
   have := (C20_expr_partial env _ h s s' ls hg).1
   simpa [x87Of, hld] using this
+
+/-- **C20_call (proved part).**  A call whose callee expression and arguments are in scope: whatever
+    the classification of the arguments (the two classification loops of `push_args` and of the
+    ND_FUNCALL arm always agree), what is popped into registers and dropped after the call is exactly
+    what was pushed — Δrsp = 0, `depth` unchanged — and the x87 stack holds the result iff the call
+    returns long double. -/
+theorem C20_call_partial (env : Env) (i : NInfo) (lhs : Node) (fty : Int) (rb : Option Var) (args : NodeList)
+    (h : covE env (.funcall i lhs fty rb args) = true)
+    (s s' : St) (ls : List Line) (hg : genExpr env (.funcall i lhs fty rb args) s = .ok ((), s', ls)) :
+    delta ls = some ⟨0, x87Of (.funcall i lhs fty rb args)⟩ ∧ s'.depth = s.depth :=
+  C20_expr_partial env _ h s s' ls hg
+
+example : covE { fpic := false, types := [] }
+    (.funcall ⟨none, 1, 1⟩ (.var ⟨none, 1, 1⟩ none) 0 none
+      (.cons (.num ⟨none, 1, 1⟩ 1 0 0 0 0) (.cons (.num ⟨none, 1, 1⟩ 2 0 0 0 0) .nil))) = true := by
+  decide
+
+/-- **C20_assert (proved part).**  `assert(depth == 0)` in `emit_text` holds after every function
+    body in scope: `gen_stmt` returns with the `depth` it started with. -/
+theorem C20_assert_partial (env : Env) (body : Node) (h : covS env body = true)
+    (s s' : St) (ls : List Line) (hg : genStmt env body s = .ok ((), s', ls)) (h0 : s.depth = 0) :
+    s'.depth = 0 := by
+  rw [(C20_stmt_partial env body h s s' ls hg).2, h0]
+
+example : covS { fpic := false, types := [] } (.block ⟨none, 1, 1⟩ .nil) = true := by decide
 
 /-- **C20_cast_table.**  Every cell of the regenerated `cast_table` is straight-line, leaves %rsp
     alone and changes the x87 depth by (to is long double) − (from is long double); in particular
